@@ -1,7 +1,7 @@
 (* C10/Corr.v -- correspondence cases: each constructor carries an input and what the real
    implementation (package gocql, through verif_shim_c10.go) returned for it; [check] runs the
    model on the input and compares.  Tokens cross the boundary as the strings token.String() prints. *)
-From GocqlV Require Import Lib.Base C10.Model.
+From GocqlV Require Import Lib.Base C10.Model C10.Spec.
 
 Inductive part := PMurmur | POrdered | PRandom.
 
@@ -19,7 +19,11 @@ Inductive case :=
         (ringv : list (str * Z))                                          (* tokenRing.tokens after newTokenRing *)
         (class : str) (opts : amap optval) (strat : option strategy)      (* keyspace, getStrategy's answer *)
         (out : outcome)
-        (lookups : list (str * option (str * list Z) * option (Z * str))). (* token, replicasFor, GetHostForToken *)
+        (lookups : list (str * option (str * list Z) * option (Z * str)))  (* token, replicasFor, GetHostForToken *)
+| CPick (p : part)
+        (hosts : list (Z * hinfo * list str))                             (* the policy's hosts after the history of AddHost / RemoveHost, all up *)
+        (class : str) (opts : amap optval) (have_ks : bool)               (* keyspace metadata; have_ks = false: the lookup fails *)
+        (picks : list (str * list Z)).                                    (* Hash(routing key).String(), the hosts TokenAwareHostPolicy(RoundRobin).Pick offered *)
 
 (* strconv.FormatInt / big.Int.String for the values that occur *)
 Fixpoint dec_digits (fuel : nat) (n : Z) (acc : str) : str :=
@@ -97,6 +101,15 @@ Section Check.
   Definition entry_eqb (a : T * list Z) (b : str * list Z) : bool :=
     tok_is (fst a) (fst b) && zlist_eqb (snd a) (snd b).
 
+  Fixpoint prefixb (a b : list Z) : bool :=
+    match a, b with
+    | [], _ => true
+    | x :: a', y :: b' => (x =? y) && prefixb a' b'
+    | _ :: _, [] => false
+    end.
+  Fixpoint nodupb (l : list Z) : bool :=
+    match l with [] => true | x :: l' => negb (zmem x l') && nodupb l' end.
+
   Definition check_ring (hosts : list (Z * hinfo * list str)) (ringv : list (str * Z))
              (class : str) (opts : amap optval) (strat : option strategy) (out : outcome)
              (lookups : list (str * option (str * list Z) * option (Z * str))) : bool :=
@@ -138,8 +151,65 @@ Section Check.
                     | _, _ => false
                     end)
             end) lookups in
-        ring_ok && strategy_eqb ms strat && out_ok && look_ok
+        (* the two formulations of Cassandra's NetworkTopologyStrategy (Spec.v) agree as sets on every lookup token
+           of a ring of at most 30 entries; the 1.2-2.2 one is the list the driver returned *)
+        let specs_ok :=
+          match ms, out with
+          | Some (SNts dcs), OMap _ =>
+              if (length R <=? 30)%nat then
+                forallb (fun '(ts, rf_out, _) =>
+                  match parse ts with
+                  | None => false
+                  | Some t =>
+                      let a := nts_natural_endpoints ltb (dc_of (info_of hosts)) (rack_of (info_of hosts)) dcs R t in
+                      let b := nts40_natural_endpoints ltb (dc_of (info_of hosts)) (rack_of (info_of hosts)) dcs R t in
+                      (length a =? length b)%nat && forallb (fun h => zmem h b) a && nodupb b
+                      && (if forallb (fun e => negb (length (snd e) =? 0)%nat) hosts
+                          then match rf_out with Some e' => zlist_eqb a (snd e') | None => (length a =? 0)%nat end
+                          else true)
+                  end) lookups
+              else true
+          | _, _ => true
+          end in
+        ring_ok && strategy_eqb ms strat && out_ok && look_ok && specs_ok
     | _, _ => false
+    end.
+  (* the token-aware policy on a ring without shared tokens, every host up, round-robin fallback: Pick offers the
+     replicas of the routing key's token first, in replica-map order (the token's owner when the keyspace has no
+     replica map), then every other host once *)
+  Definition check_pick (hosts : list (Z * hinfo * list str)) (class : str) (opts : amap optval) (have_ks : bool)
+             (picks : list (str * list Z)) : bool :=
+    match parse_hosts hosts with
+    | None => false
+    | Some hs =>
+        let R := new_token_ring ltb hs in
+        let ids := map (fun e => fst (fst e)) hosts in
+        let mm := if have_ks then
+                    match get_strategy class opts with
+                    | None => Some None
+                    | Some s => match replica_map (info_of hosts) s ids R with
+                                | Ok m => Some (Some m)
+                                | Crash _ => None
+                                end
+                    end
+                  else Some None in
+        match mm with
+        | None => false
+        | Some om =>
+            strictb R &&
+            forallb (fun '(ts, picked) =>
+              match parse ts with
+              | None => false
+              | Some t =>
+                  let owner := match get_host_for_token ltb R t with Some (h, _) => [h] | None => [] end in
+                  let reps := match om with
+                              | Some m => match replicas_for ltb m t with Some e => snd e | None => owner end
+                              | None => owner
+                              end in
+                  prefixb reps picked && nodupb picked && (length picked =? length ids)%nat
+                  && forallb (fun h => zmem h ids) picked
+              end) picks
+        end
     end.
 End Check.
 
@@ -156,6 +226,10 @@ Definition check (c : case) : bool :=
       check_ring str_ltb (fun s => Some s) zlist_eqb hosts ringv class opts strat out lookups
   | CRing PRandom hosts ringv class opts strat out lookups =>
       check_ring Z.ltb parse_random_token Z.eqb hosts ringv class opts strat out lookups
+  | CPick PMurmur hosts class opts have_ks picks =>
+      check_pick Z.ltb (fun s => Some (parse_murmur_token s)) hosts class opts have_ks picks
+  | CPick POrdered hosts class opts have_ks picks => check_pick str_ltb (fun s => Some s) hosts class opts have_ks picks
+  | CPick PRandom hosts class opts have_ks picks => check_pick Z.ltb parse_random_token hosts class opts have_ks picks
   end.
 
 Definition run (cs : list case) : list N := mismatches check cs.
